@@ -168,6 +168,14 @@ func (p *predictiveParser) Parse(tokenF parser.TokenFunc, prodF parser.Productio
 		}
 	}
 
+	// The stack is down to the endmarker: the input must be at its end too.
+	if !token.Terminal.Equal(grammar.Endmarker) {
+		return &parser.ParseError{
+			Description: fmt.Sprintf("unexpected input <%s, %s> after the end of the sentence", token.Terminal, token.Lexeme),
+			Pos:         token.Pos,
+		}
+	}
+
 	// Accept the input string.
 	return nil
 }
